@@ -312,6 +312,9 @@ def step (st : St) (toks : List String) : St × String :=
   | ["sync"] => (st, s!"sync {st.cntP}")
   | ["sleep", _] => (st, "slept")
   | "echo" :: _ => (st, " ".intercalate toks)
+  -- the context of a watcher ends (client gone): for a subscriber the hub has ALREADY dropped this is a second DeleteWatcher
+  -- of a subscriber that is no longer registered - a no-op on the pipeline (the scripts use it only for such a watcher)
+  | ["cancel", id] => (st, s!"cancel {id}")
   -- gates
   | ["arm", g] => ({ st with armed := if st.armed.contains g then st.armed else g :: st.armed }, s!"arm {g}")
   | ["disarm", g] =>
